@@ -535,18 +535,18 @@ type scriptFile struct {
 }
 
 type dump struct {
-	Index               int      `json:"index"`
-	Pid                 int      `json:"pid"`
-	StdinLen            int      `json:"stdin_len"`
-	Trailer             bool     `json:"trailer"`
-	DecodeError         string   `json:"decode_error"`
-	Version             string   `json:"version"`
-	Language            string   `json:"language"`
-	OutputPath          string   `json:"output_path"`
-	Recursive           bool     `json:"recursive"`
-	GeneratorParameters []string `json:"generator_parameters"`
-	PluginParameters    []string `json:"plugin_parameters"`
-	Request             []byte   `json:"request"`
+	Index               int             `json:"index"`
+	Pid                 int             `json:"pid"`
+	StdinLen            int             `json:"stdin_len"`
+	Trailer             bool            `json:"trailer"`
+	DecodeError         string          `json:"decode_error"`
+	Version             string          `json:"version"`
+	Language            string          `json:"language"`
+	OutputPath          string          `json:"output_path"`
+	Recursive           bool            `json:"recursive"`
+	GeneratorParameters []string        `json:"generator_parameters"`
+	PluginParameters    []string        `json:"plugin_parameters"`
+	AST                 json.RawMessage `json:"ast"`
 }
 
 type plugCase struct {
@@ -722,6 +722,9 @@ func expectedOutputs(c e2eCase) (files map[string]string, mainTokens map[string]
 				order = append(order, it.Rel)
 				last = it.Rel
 			case "named_patch":
+				if it.Point == "" {
+					return nil, nil, harness("plugin %d: named patch with the empty insertion point name", pi)
+				}
 				if _, ok := content[it.Rel]; !ok && it.Rel != c.MainGo {
 					return nil, nil, harness("plugin %d: named patch for unknown file %q", pi, it.Rel)
 				}
@@ -970,18 +973,18 @@ func judgeE2E(c e2eCase) (inf e2eInfo, err error) {
 			return inf, fmt.Errorf("plugin %d of %d was not run (exit %d)\n  %s\n%s", i, len(c.Plugins), r.Exit, cmdline, clip(r.Output))
 		}
 		where := fmt.Sprintf("request decoded by plugin %d", i)
+		if strings.HasPrefix(d.DecodeError, "AST not representable") {
+			return inf, harness("dump %d: %s", i, d.DecodeError)
+		}
 		if d.DecodeError != "" {
 			return inf, fmt.Errorf("%s: plugin.UnmarshalRequest failed on thriftgo's bytes: %s\n  %s", where, d.DecodeError, cmdline)
 		}
 		if c.Compress && !d.Trailer {
 			return inf, harness("compression requested but the request carried no trailer (plugin build info?)")
 		}
-		if !c.Compress && d.Trailer {
-			return inf, fmt.Errorf("%s: include compression used for a plugin that does not report thriftgo >= v0.4.2", where)
-		}
 		inf.compression = inf.compression || d.Trailer
-		var got *plugin.Request
-		if err := guard("UnmarshalRequest", func() (e error) { got, e = plugin.UnmarshalRequest(d.Request); return }); err != nil {
+		got := new(parser.Thrift)
+		if err := json.Unmarshal(d.AST, got); err != nil {
 			return inf, harness("dump %d does not decode: %v", i, err)
 		}
 		switch {
@@ -1000,7 +1003,7 @@ func judgeE2E(c e2eCase) (inf e2eInfo, err error) {
 		if s := paramsDiffer(d.PluginParameters, c.Plugins[i].Opts); s != "" {
 			return inf, fmt.Errorf("%s: plugin parameters: %s\n  %s", where, s, cmdline)
 		}
-		if s := idl.Diff(want.AST, got.AST, nil); s != "" {
+		if s := idl.Diff(want.AST, got, nil); s != "" {
 			return inf, fmt.Errorf("%s: AST differs from the compiler's own (compiler vs plugin): %s\n  %s", where, s, cmdline)
 		}
 	}
@@ -1096,6 +1099,12 @@ func cfgB(services bool) idl.Cfg {
 var textChunks = []string{"hello", " world\n", "\n", "é世界", "@@", "(x)", "%s %d", "\t{}\n", "package x", "0"}
 var pointNames = []string{"x", "y.z", "$a_1", "", "Q9"}
 
+// A *named* item whose insertion point is the empty name is taken for a file,
+// not a patch (FileManager.Feed tests GetInsertionPoint() != ""); whether the
+// marker with the empty name can be addressed by name is not documented, so
+// named patches use non-empty names (unnamed ones may use the empty name).
+var namedPoints = []string{"x", "y.z", "$a_1", "Q9"}
+
 type scriptGen struct {
 	rt  *rapid.T
 	idx int
@@ -1158,7 +1167,7 @@ func (g *scriptGen) okScript(shape string, prev []string) (s script, mine []stri
 		if len(prev) == 0 {
 			return
 		}
-		s.Items = append(s.Items, item{Kind: "named_patch", Rel: rapid.SampledFrom(prev).Draw(rt, "foreign"), Point: rapid.SampledFrom(pointNames).Draw(rt, "point"), Content: "[" + g.tok() + "]"})
+		s.Items = append(s.Items, item{Kind: "named_patch", Rel: rapid.SampledFrom(prev).Draw(rt, "foreign"), Point: rapid.SampledFrom(namedPoints).Draw(rt, "point"), Content: "[" + g.tok() + "]"})
 	}
 	warns := func() {
 		for k := rapid.IntRange(1, 2).Draw(rt, "nwarn"); k > 0; k-- {
@@ -1230,8 +1239,10 @@ func genE2E(rt *rapid.T) e2eCase {
 	case 1:
 		c.LimitMs = 30000
 	}
+	// two plugins in one run: the second one sees the tree after the first request
+	// was built from it (with compression: after compress + revert)
 	nplug := 1
-	if rapid.IntRange(0, 2).Draw(rt, "twoplugins") == 0 {
+	if n := rapid.IntRange(0, 11).Draw(rt, "twoplugins"); n < 4 || (c.Compress && n < 9) {
 		nplug = 2
 	}
 	var prev []string
@@ -1242,6 +1253,9 @@ func genE2E(rt *rapid.T) e2eCase {
 			pc.Opts = append(pc.Opts, genKV(rt, 1))
 		}
 		kind := rapid.IntRange(0, 99).Draw(rt, "kind")
+		if c.Compress && nplug == 2 && i == 0 {
+			kind %= 62 // let the second plugin run
+		}
 		var mine []string
 		switch {
 		case kind < 62:
@@ -1253,7 +1267,7 @@ func genE2E(rt *rapid.T) e2eCase {
 			if c.LimitMs > 0 && c.LimitMs < 5000 {
 				pc.Script.SleepMs = 0
 			}
-		case kind < 96:
+		case kind < 98:
 			pc.Shape = rapid.SampledFrom(faultShapes).Draw(rt, "fault")
 			pc.Script, _ = g.okScript(rapid.SampledFrom(okShapes).Draw(rt, "shape"), prev)
 			switch pc.Shape {
@@ -1278,12 +1292,12 @@ func genE2E(rt *rapid.T) e2eCase {
 			}
 		default:
 			pc.Shape = "timeout"
-			pc.Script, _ = g.okScript("files", prev)
-			c.LimitMs = rapid.SampledFrom([]int{300, 1000}).Draw(rt, "limitms")
-			pc.Script.SleepMs = 120 * c.LimitMs
-			for j := range c.Plugins { // a slow earlier plugin would blur the picture
-				c.Plugins[j].Script.SleepMs = 0
-			}
+			pc.Script, _ = g.okScript("files", nil)
+			c.LimitMs = rapid.SampledFrom([]int{500, 1500}).Draw(rt, "limitms")
+			pc.Script.SleepMs = 80 * c.LimitMs
+			// the sleeper runs first: on a loaded machine an earlier, well-behaved
+			// plugin could itself exceed so short a limit
+			c.Plugins, prev = nil, nil
 		}
 		prev = append(prev, mine...)
 		c.Plugins = append(c.Plugins, pc)
@@ -1313,7 +1327,7 @@ func TestEndToEnd(t *testing.T) {
 				vt.Class("shape:" + p.Shape)
 			}
 		}
-		vt.ClassIf(inf.fault != "", "fault:"+inf.fault)
+		vt.ClassIf(inf.ran && inf.fault != "", "fault:"+inf.fault)
 		if inf.ran && (inf.fault != "" || (inf.diamond && inf.extRef)) {
 			vt.Nontrivial(e2eKey(c))
 		}
